@@ -26,6 +26,7 @@ import (
 	"github.com/buildbarn/bb-storage/pkg/proto/iscc"
 	"google.golang.org/grpc/codes"
 	"google.golang.org/grpc/status"
+	"google.golang.org/protobuf/proto"
 	"google.golang.org/protobuf/types/known/durationpb"
 	"google.golang.org/protobuf/types/known/emptypb"
 	"google.golang.org/protobuf/types/known/timestamppb"
@@ -35,8 +36,49 @@ import (
 
 // ---------------------------------------------------------------- fakes
 
+// entry is one message of the fake Initial Size Class Cache.  Like the real
+// BlobAccessMutableProtoStore the fake keeps one shared in-memory message
+// while handles are out, serialises it when the last handle is released and a
+// release since loading was dirty, drops the in-memory copy, and deserialises
+// on the next Get (so that e.g. an empty map comes back as nil).
+type entry struct {
+	stored  []byte
+	live    *iscc.PreviousExecutionStats
+	dropped *iscc.PreviousExecutionStats // the last in-memory copy, as the final Release left it
+	users   int
+	dirty   bool
+}
+
+func (e *entry) load() *iscc.PreviousExecutionStats {
+	m := &iscc.PreviousExecutionStats{}
+	if err := proto.Unmarshal(e.stored, m); err != nil {
+		panic(err)
+	}
+	return m
+}
+
+// view is the message a new Get would see.
+func (e *entry) view() *iscc.PreviousExecutionStats {
+	if e.live != nil {
+		return e.live
+	}
+	return e.load()
+}
+
+// memory is the in-memory message as the last call left it (before a drop).
+func (e *entry) memory() *iscc.PreviousExecutionStats {
+	if e.live != nil {
+		return e.live
+	}
+	if e.dropped != nil {
+		return e.dropped
+	}
+	return e.load()
+}
+
 type fakeHandle struct {
 	id           int
+	e            *entry
 	msg          *iscc.PreviousExecutionStats
 	releases     []bool
 	useAfterFree int
@@ -49,14 +91,41 @@ func (h *fakeHandle) GetMutableProto() *iscc.PreviousExecutionStats {
 	return h.msg
 }
 
-func (h *fakeHandle) Release(isDirty bool) { h.releases = append(h.releases, isDirty) }
+func (h *fakeHandle) Release(isDirty bool) {
+	h.releases = append(h.releases, isDirty)
+	if len(h.releases) > 1 {
+		return
+	}
+	e := h.e
+	e.users--
+	e.dirty = e.dirty || isDirty
+	if e.users == 0 {
+		if e.dirty {
+			b, err := proto.Marshal(e.live)
+			if err != nil {
+				panic(err)
+			}
+			e.stored = b
+		}
+		e.dropped, e.live, e.dirty = e.live, nil, false
+	}
+}
 
 type fakeStore struct {
-	msgs     map[string]*iscc.PreviousExecutionStats
-	byKey    map[int]*iscc.PreviousExecutionStats
+	entries  map[string]*entry
+	byKey    map[int]*entry
 	handles  []*fakeHandle
 	gets     int
 	failNext bool
+}
+
+func (s *fakeStore) entry(k string) *entry {
+	e, ok := s.entries[k]
+	if !ok {
+		e = &entry{}
+		s.entries[k] = e
+	}
+	return e
 }
 
 func (s *fakeStore) Get(ctx context.Context, d digest.Digest) (re_blobstore.MutableProtoHandle[*iscc.PreviousExecutionStats], error) {
@@ -65,13 +134,13 @@ func (s *fakeStore) Get(ctx context.Context, d digest.Digest) (re_blobstore.Muta
 		s.failNext = false
 		return nil, status.Error(codes.Unavailable, "injected ISCC read failure")
 	}
-	k := d.GetKey(digest.KeyWithInstance)
-	m, ok := s.msgs[k]
-	if !ok {
-		m = &iscc.PreviousExecutionStats{}
-		s.msgs[k] = m
+	e := s.entry(d.GetKey(digest.KeyWithInstance))
+	if e.live == nil {
+		e.live = e.load()
+		e.dropped = nil
 	}
-	h := &fakeHandle{id: len(s.handles), msg: m}
+	e.users++
+	h := &fakeHandle{id: len(s.handles), e: e, msg: e.live}
 	s.handles = append(s.handles, h)
 	return h, nil
 }
@@ -164,15 +233,20 @@ func (w *world) keyDigest(k int) digest.Digest {
 	return d
 }
 
-func (w *world) msg(k int) *iscc.PreviousExecutionStats {
-	if m, ok := w.store.byKey[k]; ok {
-		return m
+func (w *world) entry(k int) *entry {
+	if e, ok := w.store.byKey[k]; ok {
+		return e
 	}
-	m := &iscc.PreviousExecutionStats{}
-	w.store.byKey[k] = m
-	w.store.msgs[w.keyDigest(k).GetKey(digest.KeyWithInstance)] = m
-	return m
+	e := w.store.entry(w.keyDigest(k).GetKey(digest.KeyWithInstance))
+	w.store.byKey[k] = e
+	return e
 }
+
+// msg is the message of key k as a new Get would see it (compared with the model).
+func (w *world) msg(k int) *iscc.PreviousExecutionStats { return w.entry(k).view() }
+
+// mem is the in-memory message of key k as the last call left it (judged by the monitor).
+func (w *world) mem(k int) *iscc.PreviousExecutionStats { return w.entry(k).memory() }
 
 func showOutcome(e *iscc.PreviousExecution) string {
 	switch o := e.Outcome.(type) {
@@ -326,7 +400,7 @@ func (w *world) configure(f []string) bool {
 	}
 	w.fallback, w.floatCfg, w.hist, w.eps = f[1] == "fb", float, int(hist), eps
 	w.minTO, w.defTO, w.maxTO = time.Duration(minTO), time.Duration(defTO), time.Duration(maxTO)
-	w.store = &fakeStore{msgs: map[string]*iscc.PreviousExecutionStats{}, byKey: map[int]*iscc.PreviousExecutionStats{}}
+	w.store = &fakeStore{entries: map[string]*entry{}, byKey: map[int]*entry{}}
 	w.rng, w.clk = &scriptRNG{}, &fakeClock{}
 	w.reqs = map[int]*reqState{}
 	w.df = digest.MustNewFunction("verif", remoteexecution.DigestFunction_SHA256)
@@ -373,8 +447,11 @@ func (w *world) setStats(f []string) bool {
 	if err != nil {
 		return false
 	}
-	m := w.msg(key)
-	m.Reset()
+	e := w.entry(key)
+	if e.users > 0 {
+		return false
+	}
+	m := &iscc.PreviousExecutionStats{}
 	if f[2] != "-" {
 		v, err := strconv.ParseInt(f[2], 10, 64)
 		if err != nil {
@@ -410,6 +487,11 @@ func (w *world) setStats(f []string) bool {
 		}
 		m.SizeClasses[uint32(sc)] = pc
 	}
+	b, err := proto.Marshal(m)
+	if err != nil {
+		return false
+	}
+	e.stored, e.live, e.dropped = b, nil, nil
 	return true
 }
 
@@ -456,7 +538,7 @@ func (w *world) exec(line string) (res stepResult) {
 		res.actual = "ok"
 		return
 	}
-	if w.analyzer == nil {
+	if w.analyzer == nil && f[0] != "isfaster" {
 		res.skip = true
 		return
 	}
@@ -485,6 +567,44 @@ func (w *world) exec(line string) (res stepResult) {
 			return
 		}
 		res.actual = "ok"
+	case "isfaster":
+		// isfaster <failuresA> <failuresB> <a1,a2,...|-> <b1,...|->   (Outcomes.IsFaster in both directions)
+		if len(f) != 5 {
+			res.skip = true
+			return
+		}
+		fa, err1 := strconv.Atoi(f[1])
+		fb, err2 := strconv.Atoi(f[2])
+		parse := func(x string) ([]time.Duration, bool) {
+			if x == "-" {
+				return nil, true
+			}
+			var out []time.Duration
+			for _, p := range strings.Split(x, ",") {
+				v, err := strconv.ParseInt(p, 10, 64)
+				if err != nil {
+					return nil, false
+				}
+				out = append(out, time.Duration(v))
+			}
+			return out, true
+		}
+		a, ok1 := parse(f[3])
+		b, ok2 := parse(f[4])
+		if err1 != nil || err2 != nil || !ok1 || !ok2 || fa < 0 || fb < 0 {
+			res.skip = true
+			return
+		}
+		oa, ob := initialsizeclass.NewOutcomes(a, fa), initialsizeclass.NewOutcomes(b, fb)
+		p, q := oa.IsFaster(ob), ob.IsFaster(oa)
+		if !(p > 0 && p < 1) {
+			res.monitor = fmt.Sprintf("IsFaster returned %v, not strictly between 0 and 1 (the PageRank matrix is then not stochastic)", p)
+		} else if !(q > 0 && q < 1) {
+			res.monitor = fmt.Sprintf("IsFaster returned %v, not strictly between 0 and 1 (the PageRank matrix is then not stochastic)", q)
+		} else if math.Abs(p+q-1) > 1e-12 {
+			res.monitor = fmt.Sprintf("x.IsFaster(y) + y.IsFaster(x) = %v, not 1", p+q)
+		}
+		res.actual = fmt.Sprintf("isf=%s isr=%s", strconv.FormatFloat(p, 'g', -1, 64), strconv.FormatFloat(q, 'g', -1, 64))
 	case "dump":
 		if len(f) != 2 {
 			res.skip = true
@@ -531,7 +651,7 @@ func (w *world) exec(line string) (res stepResult) {
 			res.skip = true
 			return
 		}
-		w.msg(key) // make sure the message exists under its digest
+		w.entry(key) // make sure the message exists under its digest
 		w.store.failNext = g == "err" && !w.fallback
 		handlesBefore := len(w.store.handles)
 		sel, err := w.analyzer.Analyze(context.Background(), w.df, action)
@@ -582,13 +702,13 @@ func (w *world) exec(line string) (res stepResult) {
 		if rq.handle != nil {
 			before = len(rq.handle.releases)
 		}
-		l0 := learnedNonEmpty(w.msg(rq.key))
+		l0 := learnedNonEmpty(w.mem(rq.key))
 		sel := rq.sel
 		rq.sel = nil
 		idx, exp, to, learner := sel.Select(classes)
 		rq.learner = learner
 		rq.selLargest = classes[len(classes)-1]
-		if learnedNonEmpty(w.msg(rq.key)) != l0 {
+		if learnedNonEmpty(w.mem(rq.key)) != l0 {
 			res.monitor = "Select changed the recorded outcomes of the statistics message"
 		}
 		if learner == nil {
@@ -651,12 +771,12 @@ func (w *world) exec(line string) (res stepResult) {
 		if rq.handle != nil {
 			before = len(rq.handle.releases)
 		}
-		l0 := learnedNonEmpty(w.msg(rq.key))
+		l0 := learnedNonEmpty(w.mem(rq.key))
 		sel := rq.sel
 		rq.sel = nil
 		sel.Abandoned()
 		rq.done = true
-		if learnedNonEmpty(w.msg(rq.key)) != l0 {
+		if learnedNonEmpty(w.mem(rq.key)) != l0 {
 			rq.changed = true
 		}
 		res.actual = w.choiceLine(rq, 0, 0, 0, false, before)
@@ -670,7 +790,7 @@ func (w *world) exec(line string) (res stepResult) {
 		if rq.handle != nil {
 			before = len(rq.handle.releases)
 		}
-		l0 := learnedNonEmpty(w.msg(rq.key))
+		l0 := learnedNonEmpty(w.mem(rq.key))
 		l := rq.learner
 		var idx int
 		var exp, to time.Duration
@@ -729,7 +849,7 @@ func (w *world) exec(line string) (res stepResult) {
 		if next == nil {
 			rq.done = true
 		}
-		if learnedNonEmpty(w.msg(rq.key)) != l0 {
+		if learnedNonEmpty(w.mem(rq.key)) != l0 {
 			rq.changed = true
 		}
 		if next != nil && w.minTO >= 0 && rq.orig >= 0 && (to < 0 || to > rq.orig) {
@@ -832,6 +952,11 @@ func compareLines(expected, actual string) string {
 					return fmt.Sprintf("probability of strategy %d: model %s, implementation %s", i, ratApprox(es[i]), as[i])
 				}
 			}
+		case "isf", "isr":
+			af, err := strconv.ParseFloat(av, 64)
+			if err != nil || !closeEnough(ev, af) {
+				return fmt.Sprintf("IsFaster: model %s, implementation %s", ratApprox(ev), av)
+			}
 		case "sp":
 			if (ev == "-") != (av == "-") {
 				return "stored probabilities present/absent differs"
@@ -891,7 +1016,23 @@ type outcome struct {
 	flags     map[string]bool
 	counters  []string
 	ambiguous bool
+	hung      bool
 	executed  []string
+}
+
+const callTimeout = 30 * time.Second
+
+// execWatched runs one op with a watchdog: e.g. a power iteration on a matrix that is not
+// stochastic never converges.
+func execWatched(w *world, line string) (stepResult, bool) {
+	ch := make(chan stepResult, 1)
+	go func() { ch <- w.exec(line) }()
+	select {
+	case r := <-ch:
+		return r, true
+	case <-time.After(callTimeout):
+		return stepResult{}, false
+	}
 }
 
 // run executes one history on the real code, and on the model unless the
@@ -906,7 +1047,15 @@ func run(lines []string, drv *hx.Driver) (out outcome) {
 		} else if strings.HasPrefix(line, "cfg ") {
 			useModel = drv != nil
 		}
-		res := w.exec(line)
+		res, returned := execWatched(w, line)
+		if !returned {
+			// the goroutine cannot be stopped: the caller reports this history as it is and exits
+			out.hung = true
+			out.steps++
+			out.executed = append(out.executed, line)
+			out.monitor = fmt.Sprintf("call into the analyzer did not return within %v (the scheduler would hang holding its lock) (at: %s)", callTimeout, line)
+			return
+		}
 		if res.skip {
 			continue
 		}
@@ -1004,15 +1153,44 @@ func main() {
 	defer drv.Close()
 
 	report := func(lines []string, out outcome) {
+		if out.hung {
+			// cannot be re-run in this process: report the executed prefix unshrunk and stop
+			res.Report(hx.Finding{Kind: "violation", Property: "C07", What: out.monitor,
+				Name: "C07 (b) monitor on the analyzers' own trace", History: out.executed,
+				Sig: hx.Sig("C07", "isc", "violation", monitorClass(out.monitor))})
+			res.ModelLines = drv.Lines
+			res.Write(o)
+			os.Exit(0)
+		}
+		d := drv
+		if out.monitor != "" {
+			d = nil // the monitor judges the implementation alone
+		}
+		stopShrink := false
 		fails := func(cand []string) bool {
-			r := run(cand, drv)
+			if stopShrink {
+				return false
+			}
+			r := run(cand, d)
+			if r.hung {
+				stopShrink = true // every further hang would cost the watchdog timeout
+				return false
+			}
 			if out.monitor != "" {
 				return r.monitor != ""
 			}
 			return r.mismatch != "" && r.monitor == ""
 		}
 		min := hx.Shrink(lines, fails)
-		r := run(min, drv)
+		r := run(min, d)
+		if r.hung {
+			res.Report(hx.Finding{Kind: "violation", Property: "C07", What: r.monitor,
+				Name: "C07 (b) monitor on the analyzers' own trace", History: r.executed,
+				Sig: hx.Sig("C07", "isc", "violation", monitorClass(r.monitor))})
+			res.ModelLines = drv.Lines
+			res.Write(o)
+			os.Exit(0)
+		}
 		f := hx.Finding{Property: "C07", History: min}
 		if r.monitor != "" {
 			f.Kind, f.What, f.Name = "violation", r.monitor, "C07 (b) monitor on the analyzers' own trace"
@@ -1047,8 +1225,23 @@ func main() {
 		histories = 12000 * o.Scale
 	}
 	rng := hx.NewRand(o.Seed)
-	for h := 0; h < histories && len(res.Findings) == 0; h++ {
+	// After a model/implementation disagreement the search goes on (implementation and monitor
+	// only) for a history on which the property itself fails, so that a failing input is reported
+	// whenever the generator can reach one.
+	mismatchAt := -1
+	for h := 0; h < histories; h++ {
+		if mismatchAt >= 0 && (h > mismatchAt+3000 || len(res.Findings) > 1) {
+			break
+		}
 		lines := gen(rng)
+		if mismatchAt >= 0 {
+			out := run(lines, nil)
+			res.Evaluations += out.steps
+			if out.monitor != "" {
+				report(lines, out)
+			}
+			continue
+		}
 		out := run(lines, drv)
 		res.Evaluations += out.steps
 		res.TracesVsImpl++
@@ -1060,8 +1253,13 @@ func main() {
 		}
 		nontrivial := (out.flags["kind-largestFg"] || out.flags["kind-smallerBg"] || out.flags["kind-fbLargest"]) && out.steps >= 5
 		res.History(out.executed, nontrivial)
-		if out.monitor != "" || out.mismatch != "" {
+		if out.monitor != "" {
 			report(lines, out)
+			break
+		}
+		if out.mismatch != "" {
+			report(lines, out)
+			mismatchAt = h
 		}
 	}
 	res.ModelLines = drv.Lines
